@@ -5,6 +5,12 @@ From Algo.C10 Require Export Model.
 (** what [Verify()] accepts, plus: the production list is a set *)
 Definition valid (G : gram) : Prop := verify G = true /\ nodup_prods (prods G) = true.
 
+(** an iteration oracle enumerates, in every pass of every loop, exactly the productions
+    (any permutation, with or without repetitions) *)
+Definition orders_ok (G : gram) (o : orders) : Prop := forall i p, In p (o i) <-> In p (prods G).
+Definition oracle_ok (G : gram) (O : oracle) : Prop :=
+  orders_ok G (o_null O) /\ orders_ok G (o_first O) /\ orders_ok G (o_follow O).
+
 Definition S_ (G : gram) : sym := Nt (start G).
 
 Definition reachable (G : gram) (A : nat) : Prop :=
